@@ -292,6 +292,51 @@ fn long_list(r: &mut Rng) -> crate::rt::RVal {
     RVal::List(items)
 }
 
+/// Every parameter-list shape (0-3 required, 0-2 optional, optional rest) called with 0-7 arguments, directly and as a
+/// callback of the operators and built-ins that pass one / two / three arguments: argument binding must end in a value or a
+/// reported error for every count.
+fn part_lambda_calls(ctx: &Ctx, sink: &mut Sink, j: &mut Journal) {
+    if ctx.shard_i != 0 {
+        return;
+    }
+    let sess = Sess::new();
+    let mut calls = 0u64;
+    for req in 0..4usize {
+        for opt in 0..3usize {
+            for rest in 0..2usize {
+                let mut ps: Vec<String> = (0..req).map(|k| format!("r{}", k)).collect();
+                ps.extend((0..opt).map(|k| format!("o{}?", k)));
+                if rest == 1 {
+                    ps.push("...rs".to_string());
+                }
+                let names: Vec<String> = ps.iter().map(|p| p.trim_end_matches('?').trim_start_matches("...").to_string()).collect();
+                let lam = format!("(({}) => [{}])", ps.join(", "), names.join(", "));
+                let mut forms: Vec<String> = (0..8usize).map(|n| format!("{}({})", lam, (0..n).map(|k| k.to_string()).collect::<Vec<_>>().join(", "))).collect();
+                forms.push(format!("{}(...[1, 2], ...[])", lam));
+                forms.push(format!("[7, 8] via {}", lam));
+                forms.push(format!("[7, 8] where {}", lam));
+                forms.push(format!("7 into {}", lam));
+                forms.push(format!("map([7], {})", lam));
+                forms.push(format!("filter([7], {})", lam));
+                forms.push(format!("reduce([7, 8], {}, 0)", lam));
+                forms.push(format!("every([7], {})", lam));
+                forms.push(format!("sort_by([2, 1], {})", lam));
+                forms.push(format!("group_by([7], {})", lam));
+                for src in forms {
+                    if !j.next(&src) {
+                        continue;
+                    }
+                    let mut past = false;
+                    eval_case(sink, &sess, &src, &format!("lambda-call params=req{}opt{}rest{}", req, opt, rest), json!({"call": src}), &mut past);
+                    sink.case(&format!("lamcall|{}", src), true);
+                    calls += 1;
+                }
+            }
+        }
+    }
+    sink.count("lambda_parameter_list_calls", calls);
+}
+
 fn part_long_lists(ctx: &Ctx, sink: &mut Sink, j: &mut Journal) {
     let sess = Sess::new();
     let all = BuiltInFunction::all();
@@ -969,6 +1014,9 @@ pub fn run(ctx: &Ctx, sink: &mut Sink) {
     let part = ctx.opt("part").unwrap_or("all").to_string();
     if part == "all" || part == "builtins" {
         part_builtins(ctx, sink, &mut j);
+    }
+    if part == "all" || part == "lambdacalls" {
+        part_lambda_calls(ctx, sink, &mut j);
     }
     if part == "all" || part == "longlists" {
         part_long_lists(ctx, sink, &mut j);
